@@ -41,6 +41,10 @@ fn main() {
         ("config", "record") => s_config::record(seed, &tier, &out, arg(&args, "--workdir").unwrap_or("/tmp")),
         ("stats", "replay") => s_stats::replay(&inp, &out),
         ("stats", "record") => s_stats::record(seed, &tier, &out),
+        ("server", "record") => s_server::record(arg(&args, "--driver").unwrap_or("mixed"), seed, &tier, &out, &inp),
+        ("identity", "record") => s_identity::record(seed, &tier),
+        ("clock", "replay") => s_clock::replay(&inp, &out),
+        ("clock", "record") => s_clock::record(seed, &tier, &out),
         ("selfcheck", _) => println!("{{\"rec\":\"ok\"}}"),
         (s, m) => {
             eprintln!("unknown suite/mode {} {}", s, m);
